@@ -79,7 +79,7 @@ func execV6(op string, args []string) string {
 func genOptWire6(r *Rng) (int, []byte, string) {
 	code := r.Pick(knownCodes6)
 	if r.Chance(1, 10) {
-		code = r.Pick(unknownCodes6)
+		code = pickUnknownCode6(r)
 	}
 	switch r.Intn(6) {
 	case 0, 1, 2:
